@@ -28,6 +28,12 @@ pub enum SubOp {
     Insert(usize, Entity, u64),
     Remove(usize, Entity),
     LazyInsert(usize, Entity, u64),
+    /// lazy insert targeting the entity most recently created by this same action (if any)
+    LazyInsertCreated(usize, u64),
+    /// direct insert on the entity most recently created by this same action (if any)
+    InsertCreated(usize, u64),
+    /// LazyUpdate::create_entity(..).with(..).build() from inside the action
+    LazyCreate(Vec<(usize, u64)>),
     Enqueue(Script),
 }
 
@@ -45,6 +51,10 @@ pub enum SubRes {
     Ok(bool),
     Out(Out),
     Snap(Snap),
+    /// (target, snap) of a lazy insert whose target was only known at run time
+    SnapAt(Entity, Snap),
+    /// (target, outcome) of a direct insert whose target was only known at run time
+    OutAt(Entity, Out),
     Unit,
 }
 
@@ -65,8 +75,34 @@ pub struct Env {
 /// Body of a queued closure: runs the scripted sub-operations on the world.
 pub fn exec_script(world: &mut World, s: Script, env: Env) {
     let mut res = Vec::new();
+    let mut last_created: Option<Entity> = None;
     for op in s.ops {
         match op {
+            SubOp::LazyInsertCreated(k, p) => match last_created {
+                Some(h) => {
+                    let lazy = world.read_resource::<LazyUpdate>();
+                    res.push(SubRes::SnapAt(h, env.drivers[k].lazy_insert(&lazy, h, p)));
+                }
+                None => res.push(SubRes::Unit),
+            },
+            SubOp::InsertCreated(k, p) => match last_created {
+                Some(h) => res.push(SubRes::OutAt(h, env.drivers[k].access(world, h, Path::Insert, p))),
+                None => res.push(SubRes::Unit),
+            },
+            SubOp::LazyCreate(with) => {
+                let ents = world.entities();
+                let lazy = world.read_resource::<LazyUpdate>();
+                let mut b = lazy.create_entity(&ents);
+                let mut snaps = Vec::new();
+                for (k, p) in with {
+                    let (b2, s) = env.drivers[k].lazy_builder_with(b, p);
+                    b = b2;
+                    snaps.push(s);
+                }
+                let h = b.build();
+                last_created = Some(h);
+                res.push(SubRes::Created(h, snaps));
+            }
             SubOp::Observe(h) => {
                 let w = world.is_alive(h);
                 let e = world.entities().is_alive(h);
@@ -88,10 +124,12 @@ pub fn exec_script(world: &mut World, s: Script, env: Env) {
                     snaps.push(s);
                 }
                 let h = b.build();
+                last_created = Some(h);
                 res.push(SubRes::Created(h, snaps));
             }
             SubOp::CreateAtomic => {
                 let h = world.entities().create();
+                last_created = Some(h);
                 res.push(SubRes::Created(h, vec![]));
             }
             SubOp::DeleteNow(h) => res.push(SubRes::Ok(world.delete_entity(h).is_ok())),
@@ -150,6 +188,7 @@ struct W {
     stale_occupied_probes: u64,
     stale_probes_by_path: BTreeMap<Path, u64>,
     nested_enqueues: u64,
+    lazy_on_created_in_action: u64,
     lazy_on_same_frame_reuse: u64,
     lazy_actions_run: u64,
     reg_paths_used: BTreeSet<u8>,
@@ -158,6 +197,8 @@ struct W {
     exits: [u64; 4], // returned, entity deletion, clear, world drop
     checks: u64,
     heavy_every: usize,
+    /// the property being checked (decides attribution where two properties cover the same event)
+    prop: String,
 }
 
 fn wrong_gen_entity(e: &specs::error::WrongGeneration) -> Entity {
@@ -393,7 +434,7 @@ impl W {
                     let exp = reg[k] && ee && self.model.comps[k].contains_key(&h);
                     if has[k] != exp {
                         return Err((
-                            "C09",
+                            if self.prop == "C05" { "C05" } else { "C09" },
                             format!(
                                 "inside queued action #{}: storage {} contains({:?}) = {} but expected {} (purge / earlier actions not applied in order)",
                                 id,
@@ -413,6 +454,18 @@ impl W {
                 }
             }
             (SubOp::CreateAtomic, SubRes::Created(h, _)) => self.on_created(h, true)?,
+            (SubOp::LazyCreate(with), SubRes::Created(h, snaps)) => {
+                self.on_created(h, true)?;
+                for ((k, _), s) in with.iter().zip(snaps) {
+                    self.queue.push_back(Action::Insert { storage: *k, target: h, snap: s });
+                }
+            }
+            (SubOp::LazyInsertCreated(k, _), SubRes::SnapAt(h, s)) => {
+                self.lazy_on_created_in_action += 1;
+                self.queue.push_back(Action::Insert { storage: k, target: h, snap: s })
+            }
+            (SubOp::LazyInsertCreated(..), SubRes::Unit) | (SubOp::InsertCreated(..), SubRes::Unit) => {}
+            (SubOp::InsertCreated(k, p), SubRes::OutAt(h, out)) => self.apply_access(k, h, Path::Insert, p, out)?,
             (SubOp::DeleteNow(h), SubRes::Ok(ok)) => {
                 let exp = self.model.not_dead(h);
                 if ok != exp {
@@ -795,7 +848,9 @@ impl W {
 
     fn op_maintain(&mut self) -> R {
         let had_queue = !self.queue.is_empty();
-        self.set_ctx(if had_queue { "C09" } else { "C05" });
+        // the purge of merged deletions is C05's subject as much as C09's ("only after ... deferred
+        // deletions (with their component purge) are effective"): attribute to the one being checked
+        self.set_ctx(if had_queue && self.prop != "C05" { "C09" } else { "C05" });
         self.domain(&["C01", "C02", "C05", "C09", "C17"]);
         if !self.env.log.lock().unwrap().is_empty() {
             let id = self.env.log.lock().unwrap()[0].id;
@@ -850,8 +905,12 @@ impl W {
         let mut ops = Vec::new();
         let regs = self.registered_storages();
         for _ in 0..n {
-            let c = self.rng.weighted(&[30, 10, 10, 10, 10, 12, 8, 8, if depth < 2 { 12 } else { 0 }]);
+            let c = self.rng.weighted(&[30, 10, 10, 10, 10, 12, 8, 8, if depth < 2 { 12 } else { 0 }, 8, 6, 6]);
             let h = self.pick_mixed();
+            if (c == 9 || c == 10) && !ops.iter().any(|o| matches!(o, SubOp::CreateAtomic | SubOp::CreateNow(_) | SubOp::LazyCreate(_))) {
+                // give the dynamic target something to point at: an entity created by this very action
+                ops.push(if self.rng.chance(2, 3) { SubOp::CreateAtomic } else { SubOp::CreateNow(vec![]) });
+            }
             let op = match (c, h) {
                 (0, Some(h)) => SubOp::Observe(h),
                 (1, _) => {
@@ -871,6 +930,18 @@ impl W {
                     SubOp::LazyInsert(*self.rng.pick(&regs), h, p)
                 }
                 (8, _) => SubOp::Enqueue(self.gen_script(depth + 1)),
+                (9, _) if !regs.is_empty() => {
+                    let p = self.payload();
+                    SubOp::LazyInsertCreated(*self.rng.pick(&regs), p)
+                }
+                (10, _) if !regs.is_empty() => {
+                    let p = self.payload();
+                    SubOp::InsertCreated(*self.rng.pick(&regs), p)
+                }
+                (11, _) => {
+                    let with = self.with_list(2);
+                    SubOp::LazyCreate(with)
+                }
                 _ => SubOp::CreateAtomic,
             };
             ops.push(op);
@@ -1027,6 +1098,7 @@ fn run_case(rep: &mut Report, case: u64) {
         stale_occupied_probes: 0,
         stale_probes_by_path: BTreeMap::new(),
         nested_enqueues: 0,
+        lazy_on_created_in_action: 0,
         lazy_on_same_frame_reuse: 0,
         lazy_actions_run: 0,
         reg_paths_used: BTreeSet::new(),
@@ -1035,6 +1107,7 @@ fn run_case(rep: &mut Report, case: u64) {
         exits: [0; 4],
         checks: 0,
         heavy_every: 1,
+        prop: cfg.prop.clone(),
     };
     // initial registrations: most storages now, some later
     for k in 0..nst {
@@ -1179,6 +1252,7 @@ fn run_case(rep: &mut Report, case: u64) {
     rep.bump("creations_after_failing_batch", w.creations_after_failing_batch);
     rep.bump("stale_probes_on_occupied_index", w.stale_occupied_probes);
     rep.bump("nested_enqueues", w.nested_enqueues);
+    rep.bump("lazy_inserts_on_entities_created_inside_an_action", w.lazy_on_created_in_action);
     rep.bump("lazy_builder_on_reused_index_same_frame", w.lazy_on_same_frame_reuse);
     rep.bump("lazy_actions_run", w.lazy_actions_run);
     rep.bump("purges_spanning_2plus_storages", w.purged_multi);
